@@ -153,7 +153,7 @@ func c11maxOps(tier string) int {
 
 func (c11) NumCases(tier string, seed int64) int {
 	n := len(allExprs(c11maxOps(tier)))
-	return (n+c11chunk-1)/c11chunk + 60 + 40
+	return (n+c11chunk-1)/c11chunk + 60 + 60
 }
 
 func featureOpts(assign int, style int) (parser.Options, string) {
@@ -280,19 +280,24 @@ func opsOf(e *fexpr) string {
 func (p c11) importedFeatures(c *core.Ctx) {
 	imp := "module imp { namespace \"urn:imp\"; prefix imp; revision 2020-01-01; feature x; feature y;\n" +
 		"  grouping g { leaf gx { if-feature x; type string; } leaf gnx { if-feature \"not x\"; type string; } leaf gy { if-feature \"x or y\"; type string; } leaf gplain { type string; } } }\n"
-	main := "module m { namespace \"urn:m\"; prefix m; import imp { prefix imp; } revision 2020-01-01; feature a;\n" +
-		"  uses imp:g; leaf ga { if-feature a; type string; } }\n"
+	// feature names with the module's own prefix, with the prefix of the import, and features a submodule defines
+	main := "module m { namespace \"urn:m\"; prefix m; import imp { prefix imp; } include sub; revision 2020-01-01; feature a;\n" +
+		"  uses imp:g; leaf ga { if-feature a; type string; } leaf gown { if-feature \"m:a\"; type string; } leaf gimp { if-feature \"imp:x\"; type string; }\n" +
+		"  leaf gmix { if-feature \"m:a and not imp:y\"; type string; } leaf gsub { if-feature s; type string; } leaf gsubp { if-feature \"m:s or imp:x\"; type string; } }\n"
+	sub := "submodule sub { belongs-to m { prefix m; } feature s; leaf ins { if-feature s; type string; } leaf insa { if-feature \"m:a\"; type string; } }\n"
 	opener := func(name, ext string) (io.Reader, error) {
 		switch name {
 		case "imp":
 			return strings.NewReader(imp), nil
 		case "m":
 			return strings.NewReader(main), nil
+		case "sub":
+			return strings.NewReader(sub), nil
 		}
 		return nil, nil
 	}
-	names := []string{"a", "x", "y"}
-	for assign := 0; assign < 8; assign++ {
+	names := []string{"a", "x", "y", "s"}
+	for assign := 0; assign < 16; assign++ {
 		for style := 0; style < 2; style++ {
 			var on, off []string
 			onm := map[string]bool{}
@@ -324,11 +329,12 @@ func (p c11) importedFeatures(c *core.Ctx) {
 			for _, d := range m.DataDefinitions() {
 				present[d.Ident()] = true
 			}
-			want := map[string]bool{"gx": onm["x"], "gnx": !onm["x"], "gy": onm["x"] || onm["y"], "gplain": true, "ga": onm["a"]}
-			c.Shape("imported/%03b/%s", assign, sname)
+			want := map[string]bool{"gx": onm["x"], "gnx": !onm["x"], "gy": onm["x"] || onm["y"], "gplain": true, "ga": onm["a"],
+				"gown": onm["a"], "gimp": onm["x"], "gmix": onm["a"] && !onm["y"], "gsub": onm["s"], "gsubp": onm["s"] || onm["x"], "ins": onm["s"], "insa": onm["a"]}
+			c.Shape("imported/%04b/%s", assign, sname)
 			for n, w := range want {
 				if present[n] != w {
-					c.Violate("imported/"+sname, "features a,x,y=%03b (%s): %s present=%v, want %v (x,y are features of the imported module that defines the grouping)", assign, sname, n, present[n], w)
+					c.Violate("imported/"+sname+"/"+n, "features a,x,y,s=%04b (%s): %s present=%v, want %v (x,y are features of the imported module, s of the submodule)", assign, sname, n, present[n], w)
 				}
 			}
 		}
@@ -514,6 +520,10 @@ func (p c11) deviations(c *core.Ctx, k int) {
   anydata ad { description "x"; }
   rpc act { description "x"; }
   notification nt { leaf nx { type string; } }
+  grouping gl { list gli { key k; unique "g1"; unique "g2 g3"; unique "g4"; leaf k { type string; } leaf g1 { type string; } leaf g2 { type string; } leaf g3 { type string; } leaf g4 { type string; }
+    leaf gle { type int32; must "k > 1"; must "k > 2"; units "m"; default "1"; } } }
+  container ga { uses gl; }
+  container gb { uses gl; }
 `
 	type dev struct {
 		name    string
@@ -535,6 +545,9 @@ func (p c11) deviations(c *core.Ctx, k int) {
 		{"replace/default", `deviation "/le" { deviate replace { default "7"; } }`, []string{".children.2.default"}, false},
 		{"replace/config", `deviation "/le" { deviate replace { config false; } }`, []string{".children.2.config"}, false},
 		{"replace/mandatory", `deviation "/le" { deviate replace { mandatory true; } }`, []string{".children.2.mandatory"}, false},
+		{"replace/type", `deviation "/le" { deviate replace { type string { length "1..4"; } } }`, []string{".children.2.type"}, false},
+		{"replace/type-leaf-list", `deviation "/ll" { deviate replace { type int8; } }`, []string{".children.4.type"}, false},
+		{"replace/type-container", `deviation "/co" { deviate replace { type string; } }`, nil, true},
 		{"replace/max-elements", `deviation "/li" { deviate replace { max-elements 3; } }`, []string{".children.1.max"}, false},
 		{"replace/min-elements", `deviation "/li" { deviate replace { min-elements 2; } }`, []string{".children.1.min"}, false},
 		{"add/units", `deviation "/plain" { deviate add { units "kg"; } }`, []string{".children.3.units"}, false},
@@ -549,6 +562,11 @@ func (p c11) deviations(c *core.Ctx, k int) {
 		{"delete/must", `deviation "/le" { deviate delete { must "a > 1"; } }`, []string{".children.2.musts"}, false},
 		{"delete/unique", `deviation "/li" { deviate delete { unique "u1"; } }`, []string{".children.1.unique"}, false},
 		{"delete/must-missing", `deviation "/le" { deviate delete { must "zz"; } }`, nil, true},
+		{"shared-grouping/delete-unique", `deviation "/ga/gli" { deviate delete { unique "g1"; } }`, []string{".children.7.children.0.unique"}, false},
+		{"shared-grouping/delete-middle-unique", `deviation "/ga/gli" { deviate delete { unique "g2 g3"; } }`, []string{".children.7.children.0.unique"}, false},
+		{"shared-grouping/add-unique", `deviation "/gb/gli" { deviate add { unique "g1 g4"; } }`, []string{".children.8.children.0.unique"}, false},
+		{"shared-grouping/delete-must", `deviation "/ga/gli/gle" { deviate delete { must "k > 1"; } }`, []string{".children.7.children.0.children.5.musts"}, false},
+		{"shared-grouping/replace-units", `deviation "/gb/gli/gle" { deviate replace { units "cm"; default "2"; } }`, []string{".children.8.children.0.children.5.units", ".children.8.children.0.children.5.default"}, false},
 		{"delete/both-musts", `deviation "/le" { deviate delete { must "a > 1"; must "b > 2"; } }`, []string{".children.2.musts"}, false},
 		{"delete/must+units", `deviation "/le" { deviate delete { must "b > 2"; units "m"; } }`, []string{".children.2.musts", ".children.2.units"}, false},
 		{"target-missing", `deviation "/nope" { deviate not-supported; }`, nil, true},
@@ -663,6 +681,11 @@ func (p c11) deviations(c *core.Ctx, k int) {
 		if _, still := with[".children.1.unique.0.0"]; still {
 			c.Violate("deviation/"+d.name+"/wrong-value", "unique u1 was not deleted")
 		}
+	case "replace/type":
+		p.want(c, d.name, with, ".children.2.type.format", "string")
+		p.want(c, d.name, with, ".children.2.type.length.0.s", "1..4")
+	case "replace/type-leaf-list":
+		p.want(c, d.name, with, ".children.4.type.format", "int8-list")
 	case "delete/both-musts":
 		for k := range with {
 			if strings.HasPrefix(k, ".children.2.musts.") && strings.HasSuffix(k, ".expr") {
